@@ -152,7 +152,8 @@ CppDot(tn) == JoinStr(tn.ns \o <<tn.name>>, ".") \o
 Overload(kind, c, member, args, m, ret, call, offset, nsEnums, checkName, devcall, devclass) ==
   LET cls == IF c.name = "" THEN NoClass ELSE WithEnumNames(c) IN
   [m |-> [nargs |-> m, checks |-> Checks(SubSeq(args, 1, m), kind \in {"constructor", "function"}),
-          varargout |-> IF kind = "constructor" THEN "" ELSE IF kind = "static" THEN "varargout{1} = " ELSE VarArgOut(ret)],
+          \* (static methods too: none for void, two outputs for a pair)
+          varargout |-> IF kind = "constructor" THEN "" ELSE VarArgOut(ret)],
    r |-> [kind |-> kind,
           check |-> IF kind = "constructor" THEN [name |-> "", nargin_minus_1 |-> FALSE, count |-> 0 - 1]
                     ELSE [name |-> checkName, nargin_minus_1 |-> (kind = "method"), count |-> m],
@@ -205,6 +206,8 @@ ClassFile(c, nsEnums, ser) ==
                          Overloads("method", c, m.name, m.args, m.ret, "obj->" \o m.cpp, 1, nsEnums, m.name, "", "")])]],
       serialize |-> hasSer /\ ser,
       getters |-> [i \in 1..Len(c.props) |-> c.props[i].name],
+      \* a const property is read-only: no set method, no routine assigning to the const member
+      setters |-> [i \in 1..Len(SelectSeq(c.props, LAMBDA q : ~q.t.const)) |-> SelectSeq(c.props, LAMBDA q : ~q.t.const)[i].name],
       statics |-> [g \in 1..Len(snames) |->
                      [name |-> snames[g],
                       overloads |-> FlatSeq([i \in 1..Len(ofName(c.statics, snames[g])) |->
@@ -214,7 +217,7 @@ ClassFile(c, nsEnums, ser) ==
                                    IF m.cpp # m.orig THEN c.cpp \o "::" \o m.orig ELSE "", "StaticTemplateArgumentsDropped")])]],
       props |-> [i \in 1..Len(c.props) |->
                    LET p == c.props[i] cls == WithEnumNames(c) IN
-                   [name |-> p.name,
+                   [name |-> p.name, const |-> p.t.const,
                     getter_out |-> OutOne(p.t, 0, "obj->" \o p.name, cls, nsEnums, ClassMatlab(c), NsMatlab(c)),
                     setter_unwrap |-> Unwrap([t |-> p.t, name |-> p.name], 1, cls, nsEnums),
                     setter_assign |-> "obj->" \o p.name \o " = " \o
